@@ -1,4 +1,6 @@
 import AgModel.Proofs.Finality
+import AgModel.Proofs.FinalityRun
+import AgModel.Proofs.FinalitySafeDec
 /-!
 # C08 — per-node finality tracking and pruning (property theorems)
 
@@ -6,7 +8,10 @@ Model: `AgModel.Finality` (= `src/consensus/pool/finality_tracker.rs` after the 
 real tracker by the correspondence run of `harness/src/bin/c08.rs`; the pool-level half (bounds checks,
 `PoolImpl::prune`) is in `AgModel.PoolTrack` / `Props/C08Pool.lean`.
 
-All theorems quantify over every tracker state satisfying the invariant `Inv` (established by `inv_init`,
+The run-level theorems (`safe_run_no_panic`, `reports_exact`, `reported_once`, `reports_timely`, `order_independent`,
+`retained_exact`, `watermark_exact`, `highest_exact`) quantify over every operation sequence from the initial
+tracker whose history satisfies the decidable safety premise `Safe`.
+The one-step theorems quantify over every tracker state satisfying the invariant `Inv` (established by `inv_init`,
 preserved by every successful operation: `step_preserves_inv`, hence along every operation sequence of any
 length: `run_preserves_inv`) and every operation (any slots, any hashes, any order).
 -/
@@ -80,16 +85,225 @@ theorem catches_up {t : Tracker} (h : Inv t) : ¬ Dec (t.status ((prune t).first
     certificate when the finalization certificate of the slot is already held (`FinalPendingNotar`), or by the
     finalization certificate of its slot when its notarization certificate is already held (`Notarized`).
 
-    Full statement (not proved as one theorem; the per-step halves below and the oracle of the harness
-    cover it): for every run from `init` with delivered certificate sets N, F, FF and links P, the
-    cumulative reports are exactly `DirectFinal = FF ∪ (F ⋈ N)`, their `P`-ancestors and the slots between, each
-    once.  Missing for the full statement: the trace-level invariant linking `Notarized`/`FinalPendingNotar`
-    entries to N / F, and the "each once" argument across one ancestor walk. -/
+    (One-step form kept from the first version; the full run-level statement is `reports_exact` /
+    `reported_once` / `reports_timely` below.) -/
 theorem finalized_justified_partial {t : Tracker} {op : Op} {t' : Tracker} {ev : Event} {b : Nat × Nat}
     (h : step t op = .ok t' ev) (hb : ev.finalized = some b) :
     op = .fastFinal b ∨ (op = .notar b ∧ t.status b.1 = some .finalPending) ∨
     (op = .final b.1 ∧ t.status b.1 = some (.notarized b.2)) :=
   finalized_report_cause h hb
+
+/-! ### whole runs: the reports are exactly the naive closure of the history
+
+Definitions (in `Proofs/FinalitySpec.lean`, `Proofs/FinalityRun.lean`; no reference to the tracker):
+
+* the *history* of a run is the list of operations applied so far (`add_parent`, `mark_fast_finalized`,
+  `mark_notarized`, `mark_finalized`; `prune` is not an input — the tracker prunes by itself at the end of every
+  operation that decides a slot, so every theorem below holds *with pruning interleaved wherever the code does it*);
+* `Direct H b` : `fastFinal b ∈ H`, or `final b.1 ∈ H` and `notar b ∈ H` (genesis counts as notarized);
+* `Final H b`  : inductive closure of `Direct` under the parent links of `H`;
+* `Skip H s`   : `s` strictly between a `Final` block and its parent;
+* `repF evs` / `repS evs` : all blocks reported finalized (`finalized` and `implicitly_finalized` of all events) /
+  all slots reported `implicitly_skipped`, in order of emission;
+* `Safe H` : the safety premise (decidable, `instance : Decidable (Safe G)`): parents have smaller slots, one parent
+  per block, one finalized block per slot, no finalized block strictly between a finalized block and its parent,
+  one notarized block per slot and it is the finalized one, no finalization certificate for an implicitly skipped
+  slot.  These are consequences of consensus safety (C01) for the certificate sets a correct node can hold.
+-/
+
+/-- Under the safety premise no operation sequence panics (none of the `assert!`s / "consensus safety violation"
+    panics of the tracker is reachable). -/
+theorem safe_run_no_panic {ops : List Op} (sf : Safe ops) : ∃ t evs, run init ops = some (t, evs) := by
+  obtain ⟨t, evs, h, _⟩ := run_runInv sf ops [] init [] runInv_init (by simpa using Sub.refl ops)
+  exact ⟨t, evs, h⟩
+
+/-- **reports_exact.**  After every run from the initial tracker over a safe history `ops`:
+    a block of a slot ≥ 1 has been reported finalized (directly or implicitly) iff it is in the closure `Final ops`;
+    every reported block is in the closure; a slot has been reported implicitly skipped iff it is in `Skip ops`.
+    Genesis `(0,0)` is the one block the statement's restriction "not yet below the watermark when the information
+    arrives" bites on: it is reported iff the walk reaches it while the watermark is still 0 — in particular
+    whenever the watermark is still 0 at the end (`t.first = 0`); see `genesis_report_depends_on_order`. -/
+theorem reports_exact {ops : List Op} (sf : Safe ops) {t : Tracker} {evs : List Event}
+    (h : run init ops = some (t, evs)) :
+    (∀ b, (1 ≤ b.1 ∨ t.first = 0) → (b ∈ repF evs ↔ Final ops b)) ∧
+    (∀ b, b ∈ repF evs → Final ops b) ∧
+    (∀ s, s ∈ repS evs ↔ Skip ops s) :=
+  have ri := runInv_of_run sf h
+  ⟨fun b hb => ri.final_iff sf b hb, ri.soundF, fun s => ri.skip_iff sf s⟩
+
+/-- **reported_once.**  Over the whole run every slot is reported at most once — as finalized (with one block)
+    or as implicitly skipped, never both, never twice. -/
+theorem reported_once {ops : List Op} (sf : Safe ops) {t : Tracker} {evs : List Event}
+    (h : run init ops = some (t, evs)) : ((repF evs).map (·.1) ++ repS evs).Nodup :=
+  (runInv_of_run sf h).once sf
+
+/-- **reports_timely.**  Every report is emitted by the very operation that completes its condition: the event of
+    the operation `op` applied after the history `pre` contains exactly what is in the closure of `pre ++ [op]` and
+    was not in the closure of `pre`. -/
+theorem reports_timely {pre : List Op} {op : Op} (sf : Safe (pre ++ [op])) {t1 : Tracker} {evs1 : List Event}
+    (h1 : run init pre = some (t1, evs1)) {t2 : Tracker} {ev : Event} (h2 : step t1 op = .ok t2 ev) :
+    (∀ b, (1 ≤ b.1 ∨ t2.first = 0) → (b ∈ evF ev ↔ (Final (pre ++ [op]) b ∧ ¬ Final pre b))) ∧
+    (∀ s, s ∈ ev.implSkipped ↔ (Skip (pre ++ [op]) s ∧ ¬ Skip pre s)) := by
+  have hs := sub_append_left pre op
+  have sf1 : Safe pre := sf.sub hs
+  have ri1 := runInv_of_run sf1 h1
+  have ri2 := runInv_of_run sf (run_snoc h1 h2)
+  have hmono := (step_spec ri1.inv h2).first
+  have ndF := ri2.nodupF
+  have ndS := ri2.nodupS
+  rw [repF_snoc, List.map_append, List.nodup_append] at ndF
+  rw [repS_snoc, List.nodup_append] at ndS
+  constructor
+  · intro b hb
+    have hb1 : 1 ≤ b.1 ∨ t1.first = 0 := hb.elim Or.inl (fun e => Or.inr (by omega))
+    constructor
+    · intro hm
+      refine ⟨ri2.soundF b (by rw [repF_snoc]; exact List.mem_append_right _ hm), ?_⟩
+      intro hf
+      have := (ri1.final_iff sf1 b hb1).mpr hf
+      exact ndF.2.2 b.1 (List.mem_map.mpr ⟨b, this, rfl⟩) b.1 (List.mem_map.mpr ⟨b, hm, rfl⟩) rfl
+    · intro ⟨hf, hn⟩
+      have := (ri2.final_iff sf b hb).mpr hf
+      rw [repF_snoc] at this
+      rcases List.mem_append.mp this with x | x
+      · exact absurd (ri1.soundF b x) hn
+      · exact x
+  · intro s
+    constructor
+    · intro hm
+      refine ⟨ri2.soundS s (by rw [repS_snoc]; exact List.mem_append_right _ hm), ?_⟩
+      intro hk
+      exact ndS.2.2 s ((ri1.skip_iff sf1 s).mpr hk) s hm rfl
+    · intro ⟨hk, hn⟩
+      have := (ri2.skip_iff sf s).mpr hk
+      rw [repS_snoc] at this
+      rcases List.mem_append.mp this with x | x
+      · exact absurd (ri1.soundS s x) hn
+      · exact x
+
+/-- **Pruning is lossless over whole runs.**  However often the tracker has pruned, the answer it holds for a
+    slot at or above the watermark is the one the *complete* history demands: finalized with `h` iff `(s,h)` is in
+    the closure, implicitly skipped iff in `Skip`, and otherwise exactly the certificates seen for the slot. -/
+theorem retained_exact {ops : List Op} (sf : Safe ops) {t : Tracker} {evs : List Event}
+    (h : run init ops = some (t, evs)) (s : Nat) (hw : t.first ≤ s) :
+    (∀ hh, finalHash (t.status s) = some hh ↔ Final ops (s, hh)) ∧
+    (t.status s = some .implSkipped ↔ Skip ops s) ∧
+    (¬ Dec (t.status s) → ((∀ hh, t.status s = some (.notarized hh) ↔ NotarH ops (s, hh)) ∧
+                            (t.status s = some .finalPending ↔ FinH ops s))) := by
+  have ri := runInv_of_run sf h
+  have ok := ri.rel.slot s hw
+  refine ⟨?_, ?_, ?_⟩
+  · intro hh
+    exact ⟨slotOK_final ok, fun a => ri.rel.final_complete sf (Sub.refl _) a hw⟩
+  · exact ⟨slotOK_skip ok, fun a => ri.rel.skip_complete sf (Sub.refl _) a hw⟩
+  · intro nd
+    rcases undec_cases nd with e | ⟨x, e⟩ | e <;> rw [e] at ok ⊢
+    · refine ⟨fun hh => ⟨(fun a => by cases a), fun a => absurd a (ok.2.1 hh)⟩, ⟨(fun a => by cases a), fun a => absurd a ok.1⟩⟩
+    · refine ⟨fun hh => ⟨(fun a => by cases a; exact ok.1), fun a => ?_⟩, ⟨(fun a => by cases a), fun a => absurd a ok.2.1⟩⟩
+      have := sf.notar_fun (s, x) (s, hh) ok.1 a rfl
+      cases this; rfl
+    · refine ⟨fun hh => ⟨(fun a => by cases a), fun a => absurd a (ok.2.1 hh)⟩, ⟨fun _ => ok.1, fun _ => rfl⟩⟩
+
+/-- **The watermark is exactly the end of the decided prefix of the history**: every slot `1 … first` is decided
+    by the history ("nothing is discarded before the whole prefix below it is decided") and slot `first + 1` is
+    not (the watermark has caught up when the operation returns). -/
+theorem watermark_exact {ops : List Op} (sf : Safe ops) {t : Tracker} {evs : List Event}
+    (h : run init ops = some (t, evs)) :
+    (∀ s, 1 ≤ s → s ≤ t.first → (Skip ops s ∨ ∃ hh, Final ops (s, hh))) ∧
+    ¬ (Skip ops (t.first + 1) ∨ ∃ hh, Final ops (t.first + 1, hh)) :=
+  (runInv_of_run sf h).watermark sf
+
+/-- **`highest_finalized_slot` is exactly the highest slot of a finalized block of the history** (0 = genesis if
+    there is none). -/
+theorem highest_exact {ops : List Op} (sf : Safe ops) {t : Tracker} {evs : List Event}
+    (h : run init ops = some (t, evs)) :
+    (∀ b, Final ops b → b.1 ≤ t.highest) ∧ (t.highest = 0 ∨ ∃ b, Final ops b ∧ b.1 = t.highest) := by
+  have ri := runInv_of_run sf h
+  refine ⟨?_, ri.hiAtt⟩
+  intro b hb
+  by_cases hw : t.first ≤ b.1
+  · exact ri.inv.dec_le _ (dec_of_finalHash (ri.rel.final_complete sf (Sub.refl _) hb hw))
+  · have := ri.inv.first_le; omega
+
+/-- **order_independent.**  Two runs over the same *set* of inputs (any order, any multiplicities; the tracker
+    prunes whenever it does) end with the same watermark, the same answer for every slot at or above it (`view`
+    forgets only whether a block was finalized directly or through a descendant), and the same set of reports
+    (modulo genesis, see `genesis_report_depends_on_order`). -/
+theorem order_independent {ops1 ops2 : List Op} (hset : ∀ op, op ∈ ops1 ↔ op ∈ ops2) (sf : Safe ops1)
+    {t1 t2 : Tracker} {evs1 evs2 : List Event}
+    (h1 : run init ops1 = some (t1, evs1)) (h2 : run init ops2 = some (t2, evs2)) :
+    t1.first = t2.first ∧ t1.highest = t2.highest ∧
+    (∀ s, t1.first ≤ s → view (t1.status s) = view (t2.status s)) ∧
+    (∀ b, 1 ≤ b.1 → (b ∈ repF evs1 ↔ b ∈ repF evs2)) ∧
+    (∀ s, s ∈ repS evs1 ↔ s ∈ repS evs2) := by
+  have hs : Sub ops1 ops2 := fun o h => (hset o).mp h
+  have hs' : Sub ops2 ops1 := fun o h => (hset o).mpr h
+  have sf2 : Safe ops2 := sf.sub hs'
+  have ri1 := runInv_of_run sf h1
+  have ri2 := runInv_of_run sf2 h2
+  have hf := first_eq sf hs hs' ri1 ri2
+  have hle : ∀ {opsA opsB : List Op} {tA tB : Tracker} {eA eB : List Event}, Sub opsA opsB → Safe opsB →
+      RunInv opsA tA eA → run init opsB = some (tB, eB) → tA.highest ≤ tB.highest := by
+    intro opsA opsB tA tB eA eB hsub sfB riA hB
+    rcases riA.hiAtt with e | ⟨b, hb, e⟩
+    · omega
+    · rw [← e]; exact (highest_exact sfB hB).1 b (hb.mono hsub)
+  refine ⟨hf, Nat.le_antisymm (hle hs sf2 ri1 h2) (hle hs' sf ri2 h1), ?_, ?_, ?_⟩
+  · intro s a
+    exact view_eq sf hs hs' ri1.rel ri2.rel s a (by omega)
+  · intro b hb
+    rw [ri1.final_iff sf b (Or.inl hb), ri2.final_iff sf2 b (Or.inl hb)]
+    exact ⟨Final.mono hs, Final.mono hs'⟩
+  · intro s
+    rw [ri1.skip_iff sf s, ri2.skip_iff sf2 s]
+    exact ⟨Skip.mono hs, Skip.mono hs'⟩
+
+/-- Two orders of the same inputs both run to the end (corollary of `safe_run_no_panic`). -/
+theorem order_independent_runs {ops1 ops2 : List Op} (hset : ∀ op, op ∈ ops1 ↔ op ∈ ops2) (sf : Safe ops1) :
+    (∃ t evs, run init ops1 = some (t, evs)) ∧ (∃ t evs, run init ops2 = some (t, evs)) :=
+  ⟨safe_run_no_panic sf, safe_run_no_panic (sf.sub (fun o h => (hset o).mpr h))⟩
+
+/-! #### the safety premise is needed, and satisfiable -/
+
+/-- Non-vacuity: the out-of-order history of the first example below is safe (kernel-evaluated through the
+    `Decidable (Safe _)` instance) … -/
+example : Safe [.fastFinal (5, 3), .final 1, .parent (5, 3) (2, 2), .parent (1, 1) (0, 0), .parent (2, 2) (1, 1)] := by
+  decide
+
+/-- … and so is one that uses every kind of input, finalization before notarization, a duplicate, a side block
+    `(2,9)` notarized in a skipped slot, and inputs for slots that are already pruned when they arrive. -/
+def sampleHistory : List Op :=
+  [.final 3, .notar (1, 1), .notar (3, 3), .parent (3, 3) (1, 1), .notar (2, 9), .final 1, .parent (1, 1) (0, 0),
+   .fastFinal (3, 3), .parent (2, 9) (1, 1), .fastFinal (4, 4), .parent (4, 4) (3, 3), .notar (1, 1)]
+
+example : Safe sampleHistory := by decide
+
+example : (run init sampleHistory).map (fun r => (r.1.first, r.1.highest, repF r.2, repS r.2)) =
+    some (4, 4, [(3, 3), (1, 1), (4, 4)], [2]) := by decide
+
+/-- Without the premise "no finalized block strictly between a finalized block and its parent" the reports are
+    *not* the closure although nothing panics: `(1,1)`, `(2,2)` are fast-finalized (watermark 2), then `(3,3)` with
+    parent `(1,1)`.  The closure demands slot 2 skipped (and finalized): the tracker reports no skip. -/
+theorem unsafe_history_not_exact :
+    let ops : List Op := [.fastFinal (1, 1), .fastFinal (2, 2), .parent (3, 3) (1, 1), .fastFinal (3, 3)]
+    ¬ Safe ops ∧ Skip ops 2 ∧ (run init ops).map (fun r => repS r.2) = some [] := by
+  refine ⟨by decide, ?_, by decide⟩
+  exact ⟨(3, 3), (1, 1), .direct (Or.inl (by decide)), by decide, by decide, by decide⟩
+
+/-- Without "one finalized block per slot" (or any of the uniqueness premises) the tracker panics
+    ("consensus safety violation"). -/
+theorem unsafe_history_panics :
+    ¬ Safe [.fastFinal (1, 1), .fastFinal (1, 2)] ∧ run init [.fastFinal (1, 1), .fastFinal (1, 2)] = none := by
+  constructor <;> decide
+
+/-- Genesis is the one report that depends on the order of arrival: if the link `(1,1) → genesis` is known before
+    `(1,1)` is finalized, genesis is reported as implicitly finalized; if it arrives afterwards the watermark has
+    already left slot 0 and the walk stops silently.  Both histories are safe; all other reports agree. -/
+theorem genesis_report_depends_on_order :
+    (run init [.parent (1, 1) (0, 0), .fastFinal (1, 1)]).map (fun r => repF r.2) = some [(1, 1), (0, 0)] ∧
+    (run init [.fastFinal (1, 1), .parent (1, 1) (0, 0)]).map (fun r => repF r.2) = some [(1, 1)] ∧
+    Safe [.parent (1, 1) (0, 0), .fastFinal (1, 1)] := by
+  refine ⟨by decide, by decide, by decide⟩
 
 /-! ### non-vacuity: concrete runs (evaluated by the kernel) -/
 
